@@ -404,8 +404,18 @@ pub fn run_property(def: &PropDef, cfg: &BatchCfg) -> i32 {
         exit = 1;
         let scen = &def.scens[f.scen];
         // reproduce, minimise, write replay files
-        let orig = exec_isolated(scen.f, Chooser::replay(f.choices.clone()), true, false);
-        let reproduced = matches!(&orig.result, Err(v) if v.key() == vkey);
+        let mut orig = exec_isolated(scen.f, Chooser::replay(f.choices.clone()), true, false);
+        let mut reproduced = matches!(&orig.result, Err(v) if v.key() == vkey);
+        // The harness is deterministic (bin/setup proves it); if the same choice list does not give the same result, the
+        // library's behaviour depends on something else - hash-map iteration order, an address, a thread id. Retried a
+        // few times: a violation that recurs only sometimes is still reported, its replay file marked accordingly.
+        let mut flaky = false;
+        if !reproduced {
+            for _ in 0..20 {
+                let again = exec_isolated(scen.f, Chooser::replay(f.choices.clone()), true, false);
+                if matches!(&again.result, Err(v) if v.key() == vkey) { orig = again; reproduced = true; flaky = true; break; }
+            }
+        }
         let dir = cfg.verif_dir.join("replays");
         let base = format!("{}-{}-{}-{}{}", def.id, scen.name, cfg.seed, f.idx, if build_profile() == "relna" { "-relna" } else { "" });
         let orig_path = dir.join(format!("{base}.orig.json"));
@@ -416,6 +426,13 @@ pub fn run_property(def: &PropDef, cfg: &BatchCfg) -> i32 {
             // Decided below, once the classes that do reproduce are known.
             violations -= 1;
             unreproduced.push((f.run, f.scen, f.idx, vkey.clone(), f.v.detail.clone()));
+            continue;
+        }
+        if flaky {
+            let path = dir.join(format!("{base}.json"));
+            write_file(&path, &replay_json(def, scen, cfg.seed, f.idx, &f.choices, &f.v, orig.cx.digest, &orig.cx.events).set("flaky", J::Bool(true)).to_string_pretty());
+            println!("violation class {} scenario {} run {} (not minimised: the same choice list does not always give the same result - the library's behaviour depends on something outside the simulation): {}", vkey, scen.name, f.idx, f.v.detail);
+            println!("VIOLATION property={} replay={}", def.id, path.display());
             continue;
         }
         let (min, tries) = minimise(scen.f, f.choices.clone(), &vkey, 600);
@@ -604,6 +621,20 @@ pub fn replay_file(defs: &[PropDef], path: &Path) -> i32 {
                 1
             }
         };
+    }
+    if j.get("flaky").map_or(false, |b| matches!(b, J::Bool(true))) {
+        for attempt in 1..=60 {
+            let out = exec_isolated(scen.f, Chooser::replay(choices.clone()), false, false);
+            if let Err(v) = &out.result {
+                if v.key() == want_key {
+                    println!("replayed (attempt {attempt}; the file is marked flaky): {} -- {}", v.key(), v.detail);
+                    println!("VIOLATION property={} replay={}", def.id, path.display());
+                    return 1;
+                }
+            }
+        }
+        eprintln!("replay mismatch: {want_key} did not recur in 60 attempts");
+        return 2;
     }
     let out = exec_isolated(scen.f, Chooser::replay(choices), true, true);
     for e in &out.cx.events {
